@@ -222,7 +222,7 @@ pub fn run_check(ctx: &Ctx) {
     let n = ctx.tier.pick(150_000u64, 3_000_000);
     ctx.run_gen("chains", chain, n, check, |c| to_json(c));
     ctx.run_gen("not-alone", not_alone, n / 2, check, |c| to_json(c));
-    let _ = USpell { factors: vec![], slash: false, star: false };
+    let _ = USpell { factors: vec![], slash: false, star: false, noise: 0, starstar: false };
 }
 
 pub fn replay(ctx: &Ctx, case: &Value) {
